@@ -10,9 +10,9 @@ CLAIM = {
              "settings with futures) aligned for every permutation, the flat result in enumeration order; (R2) the swept function is evaluated at exactly one site per helper, once per setting, unconditionally, by exactly "
              "one helper on every path, never by the core itself, futures resolved in submission order; (R3) each kwargs dict is names x location + constants and nothing else, locations and settings are appended in lock-step, "
              "case values are looked up by name, all concatenations are [case, combo]; (R4) the executor adapters follow the three documented APIs; (R5) user combos pass duplicate rejection and value-preserving "
-             "normalisation on the way from every public entry. Not decided: that a pool runs each submitted call once and pickles faithfully; the index arithmetic inside _unflatten."),
+             "normalisation on the way from every public entry; (R7) the nesting function _unflatten is interpreted by the analyser's own syntax-tree interpreter on a window of grids (1-3 arguments x 1-3 values each, 39 shapes) with one symbolic result per location: slot [i][j][k] of the returned tuple holds the result stored for (v_i, v_j, v_k) -- decided on the window, not for larger grids. Not decided: that a pool runs each submitted call once and pickles faithfully; nesting beyond the window."),
     "note": "Trusted base: concurrent.futures / multiprocessing contract (a future yields the value of its own call); CPython semantics of the parsed ast; order-preserving / destroying idiom tables in xyzsa/order.py; an unrecognised transformation reaching a sink ends as exit 2.",
-    "technique": "static analysis: interprocedural abstract interpretation over CFGs with an order/alignment domain, partitioned by flag valuation; CFG path counting; adapter API table",
+    "technique": "static analysis: interprocedural abstract interpretation over CFGs with an order/alignment domain, partitioned by flag valuation; CFG path counting; adapter API table; finite-window interpretation of the nesting function's syntax tree (no repository code is executed)",
 }
 EXPLANATION = ("D-ORDER abstract interpretation (xyzsa/order.py) of combo_runner_core, _run_linear_*, process_results under every valuation of the configuration flags; "
                "syntactic/CFG rules for exactly-once evaluation, settings construction, executor adapters and the parse_combos path from each public entry.")
@@ -20,7 +20,7 @@ ASSUMPTIONS = ["a future returned by submit / apply_async yields the value of th
                "random.shuffle permutes its list argument in place and nothing else",
                "itertools.product enumerates in row-major order (order of the given value lists)"]
 NOT_DECIDED = ["(L) that a pool actually runs each submitted call once and pickles arguments faithfully",
-               "(V) the index arithmetic inside _unflatten (nested placement), pinned by the existing tests on a 3x4x3 grid"]
+               "(V) nested placement by _unflatten for more than 3 arguments or more than 3 values per argument (C01.R7 decides the window below that by interpreting the function's syntax tree; an unmodelled statement is exit 2)"]
 
 
 def run(ctx):
@@ -30,6 +30,7 @@ def run(ctx):
     sweep.adapter_rule(ctx, "C01.R4")
     sweep.duplicates_rule(ctx, "C01.R5")
     sweep.core_callers_rule(ctx, "C01.R6")
+    sweep.nested_placement_rule(ctx, "C01.R7", missing=False)
     prog = ctx.prog
     names = [CR + "." + n for n in ("combo_runner_core", "_run_linear_sequential", "_run_linear_executor", "_submit", "_get_result", "_unflatten", "combo_runner", "nan_like_result", "infer_shape")]
     names += [PREP + "." + n for n in ("parse_combos", "check_for_duplicates", "parse_cases", "parse_fn_args", "dictify")]
